@@ -58,6 +58,8 @@ impl Wake for Flag {
 pub struct Node {
     pub litep2p: Litep2p,
     pub script: ScriptHandle,
+    /// second scripted transport (registered as WebSocket), if the node was built with two transports
+    pub script_ws: Option<ScriptHandle>,
     pub exec: Arc<CaptureExecutor>,
     pub driver: Driver,
     main_flag: Arc<Flag>,
@@ -69,16 +71,25 @@ pub struct Node {
 impl Node {
     /// Must be called inside the runtime context (`rt.enter()`).
     pub fn new(builder: ConfigBuilder, listen: Vec<Multiaddr>) -> Result<Node, String> {
+        Self::with_transports(builder, listen, false)
+    }
+
+    /// `two` = also install a second scripted transport, registered as WebSocket (addresses with `/ws` go there)
+    pub fn with_transports(builder: ConfigBuilder, listen: Vec<Multiaddr>, two: bool) -> Result<Node, String> {
         let script = ScriptHandle::new();
         let exec = Arc::new(CaptureExecutor::default());
-        let config = builder
-            .with_executor(exec.clone())
-            .with_verif_transport(script.factory(listen))
-            .build();
+        let mut builder = builder.with_executor(exec.clone()).with_verif_transport(script.factory(listen));
+        let script_ws = two.then(ScriptHandle::new);
+        if let Some(ws) = &script_ws {
+            // both transports draw connection ids from the manager's allocator; inbound ids of the second one are not used
+            builder = builder.with_verif_transport_ws(ws.factory(vec![]));
+        }
+        let config = builder.build();
         let litep2p = Litep2p::new(config).map_err(|e| format!("Litep2p::new failed: {e:?}"))?;
         let mut node = Node {
             litep2p,
             script,
+            script_ws,
             exec,
             driver: Driver::new(),
             main_flag: Arc::new(Flag(AtomicBool::new(true))),
